@@ -223,7 +223,25 @@ Bytes32Fields(k) ==
     [] OTHER -> {}
 TextModes  == {"case", "space"}
 BytesModes == {"tail", "head", "short"}
-ClassModes == TextModes \cup BytesModes
+
+(***************************************************************************)
+(* Values that a join which "cleans" its input like a file path            *)
+(* (path.Join: drops empty elements, removes "." segments, resolves "..",  *)
+(* collapses "//", strips a trailing "/") would identify.  Per free-text   *)
+(* field: "dot" v ~ ./v ~ v/. ; "trail" v ~ v/ ~ /v ; "dotdot" v ~ x/../v ; *)
+(* "dslash" a/b ~ a//b.  Per pair of neighbouring free-text fields (and    *)
+(* per repeated free-text field) "empty": an element that is empty while   *)
+(* its content sits in the neighbour: ("",v) ~ (v,""), (v,w) ~ ("",v/w).   *)
+(* All of these are different items with different effect and must keep    *)
+(* different digests.                                                      *)
+(***************************************************************************)
+PathModes == {"dot", "trail", "dotdot", "dslash"}
+PathFields(k) == IF k \in KindsC11 THEN TextFields(k) ELSE IF k \in KindsC04 THEN FreeText(k) ELSE {}
+EmptySets(k) ==
+  IF k \in KindsC11 \cup KindsC04
+  THEN {{p[1], p[2]} : p \in {q \in Adjacent(k) : q[1] \in FreeText(k) /\ q[2] \in FreeText(k)}}
+  ELSE {}
+ClassModes == TextModes \cup BytesModes \cup PathModes \cup {"empty"}
 
 -----------------------------------------------------------------------------
 (* Obligations *)
@@ -236,6 +254,10 @@ OblOf(f) ==
   \cup UNION {{[kind |-> k, fields |-> F, mode |-> "shift"] : F \in ShiftSets(k)} : k \in KindsOf(f)}
   \cup UNION {{[kind |-> k, fields |-> {x}, mode |-> m] : x \in TextFields(k), m \in TextModes} : k \in KindsOf(f)}
   \cup UNION {{[kind |-> k, fields |-> {x}, mode |-> m] : x \in Bytes32Fields(k), m \in BytesModes} : k \in KindsOf(f)}
+  \cup UNION {{[kind |-> k, fields |-> {x}, mode |-> m] : x \in PathFields(k), m \in PathModes \ {"dslash"}} : k \in KindsOf(f)}
+     \* both values of a "dslash" pair contain a '/': only meaningful where such a value is admitted at all
+  \cup UNION {{[kind |-> k, fields |-> {x}, mode |-> "dslash"] : x \in PathFields(k) \cap FreeText(k)} : k \in KindsOf(f)}
+  \cup UNION {{[kind |-> k, fields |-> F, mode |-> "empty"] : F \in EmptySets(k)} : k \in KindsOf(f)}
   \cup (IF f = "C04" THEN {[kind |-> "ProofType", fields |-> P, mode |-> "cross"] : P \in CrossPairs} ELSE {})
 
 Obl == UNION {OblOf(f) : f \in Families}
@@ -251,7 +273,8 @@ NoObl == [kind |-> "-", fields |-> {}, mode |-> "none"]
 (*         (length prefix / ABI / escaping): in the model every encoding   *)
 (*         is delimited;                                                   *)
 (*  cross: the evidence identity carries the proof type;                   *)
-(*  case / space / tail / head / short: the field is covered raw.          *)
+(*  case / space / tail / head / short / dot / trail / dotdot / dslash /    *)
+(*  empty: the fields are covered raw, each in its own place.              *)
 (***************************************************************************)
 Delimited(k) == TRUE
 TypeTagged   == TRUE
@@ -259,7 +282,7 @@ Binds(o) ==
   CASE o.mode = "subst" -> o.fields \cap Bound(o.kind) # {}
     [] o.mode = "shift" -> o.fields \subseteq Bound(o.kind) /\ Delimited(o.kind)
     [] o.mode = "cross" -> TypeTagged
-    [] o.mode \in ClassModes -> o.fields \subseteq Bound(o.kind)      \* the digest covers the raw value, unnormalised and in full
+    [] o.mode \in ClassModes -> o.fields \subseteq Bound(o.kind) /\ Delimited(o.kind)  \* the digest covers the raw values, unnormalised, in full, each in its place
     [] OTHER -> TRUE
 
 -----------------------------------------------------------------------------
@@ -285,6 +308,7 @@ TableOK ==
     /\ \A p \in Adjacent(k) : p[1] \in Fields(k) /\ p[2] \in Fields(k)
     /\ \A S \in ShiftSets(k) : S \subseteq Required(k)
     /\ TextFields(k) \subseteq Required(k) /\ Bytes32Fields(k) \subseteq Required(k)
+    /\ PathFields(k) \subseteq Required(k) /\ \A S \in EmptySets(k) : S \subseteq Required(k)
     /\ (k \in KindsC11 => FreeText(k) \subseteq TextFields(k))
     /\ Required(k) # {}
 
